@@ -42,6 +42,11 @@ Queries ==
                         : j \in Neighbours(i)} : i \in 1..N}
     \cup {[op |-> "eq", node |-> 0, name |-> n, dl |-> d1, dr |-> d2, exp |-> TRUE] : n \in AllNames, d1 \in FewDecos, d2 \in FewDecos}
     \cup {[op |-> "lookup", node |-> LookupExpected(n), name |-> n, dl |-> Plain, dr |-> Plain, exp |-> TRUE] : n \in AllNames}
+    \* late registration: a name registered with Extend (as the type or as an alias, under node i), looked up
+    \* before the registration (exp = TRUE: it was probed while still unknown) and after it: "every registered
+    \* type and alias resolves through Lookup" also holds for names that were once unknown
+    \cup {[op |-> "late", node |-> i, name |-> n, dl |-> Plain, dr |-> Plain, exp |-> pr]
+            : i \in {1, 2, N}, n \in {"verif/late-type", "verif/late-alias"}, pr \in BOOLEAN}
 Init == q \in Queries
 Next == UNCHANGED q
 Spec == Init /\ [][Next]_q
